@@ -36,3 +36,63 @@ Proof.
   destruct (clamped_in_box t Ht c lo hi sizes Hl Hh Hs B1 B2) as [I1 I2].
   split; [|now apply rowmajor_range]. unfold clamp_at, strided_at. now rewrite I1.
 Qed.
+
+(* ---- an interpolator ABOVE the clamp: every one of its 2^N (resp. one) neighbour queries is answered from
+   inside the storage, for EVERY coordinate the interpolator can convert to the index type ---- *)
+Section Beneath.
+  Variables (t tc : sty) (sizes lo hi : list Z) (m : nat) (data : list Z).
+  Hypothesis Ht : is_float t = false.
+  Hypothesis Hlo : length lo = length sizes.
+  Hypothesis Hhi : length hi = length sizes.
+  Hypothesis B1 : Forall2 (fun l h => 0 <= l <= h) lo hi.
+  Hypothesis B2 : Forall2 (fun h s => h < s) hi sizes.
+  (* the storage is addressable by the index type of the row-major layer *)
+  Hypothesis Haddr : forall z, 0 <= z < zprod sizes -> wrap_sty tc z = z.
+
+  Definition storage : query := array_at m (zprod sizes) data.
+  Definition clamped_storage : query := clamp_at flocq_ops t lo hi (strided_at tc sizes storage).
+  Definition in_storage (i : Z) : Prop := 0 <= i < zprod sizes.
+
+  Lemma clamped_cell c : length c = length sizes ->
+    exists i v, clamped_storage c = Some ([i], v) /\ in_storage i.
+  Proof.
+    intros Hc. destruct (clamp_safe_over_array t tc sizes lo hi storage c Ht) as [c' [E R]]; try congruence; try assumption.
+    exists (rowmajor sizes c'), (firstn m (skipn (Z.to_nat (rowmajor sizes c') * m) data)).
+    split; [|exact R]. unfold clamped_storage. rewrite E, (Haddr _ R). unfold storage, array_at.
+    destruct (Z.leb_spec 0 (rowmajor sizes c')); [|lia]. destruct (Z.ltb_spec (rowmajor sizes c') (zprod sizes)); [|lia]. reflexivity.
+  Qed.
+
+  Lemma gather_cells (cs : list (list Z)) : Forall (fun c => length c = length sizes) cs ->
+    exists tr vals, gather clamped_storage cs = Some (tr, vals) /\ Forall in_storage tr.
+  Proof.
+    induction 1 as [|c cs Hc _ [tr [vals [G F]]]]; cbn [gather].
+    - exists [], []. split; [reflexivity|constructor].
+    - destruct (clamped_cell c Hc) as [i [v [E R]]]. rewrite E, G.
+      exists ([i] ++ tr), (v :: vals). split; [reflexivity|]. constructor; assumption.
+  Qed.
+
+  Lemma corner_lengths (special : bool) tidx (is_ : list Z) (ns : list nat) :
+    Forall (fun c => length c = length is_) (map (if special then corner_special tidx is_ else corner_generic tidx is_) ns).
+  Proof.
+    apply Forall_forall. intros c Hin. apply in_map_iff in Hin as [n [<- _]].
+    destruct special; unfold corner_special, corner_generic; now rewrite map_length, combine_length, seq_length, Nat.min_id.
+  Qed.
+
+  Theorem linear_over_clamp_safe tcoord tv (c : list Z) : length c = length sizes ->
+    forallb (conv_defined flocq_ops tcoord t) c = true ->
+    exists tr vs, linear_at flocq_ops tcoord t tv clamped_storage c = Some (tr, vs) /\ Forall in_storage tr.
+  Proof.
+    intros Hc Hd. unfold linear_at. cbv zeta. rewrite Hd. cbn [negb].
+    match goal with |- context [gather clamped_storage ?cs] => set (corners := cs) end.
+    assert (L : Forall (fun c0 => length c0 = length sizes) corners).
+    { unfold corners. eapply Forall_impl; [|apply corner_lengths]. cbn beta. intros a E. now rewrite E, map_length. }
+    destruct (gather_cells corners L) as [tr [vals [G F]]]. rewrite G. eexists; eexists. split; [reflexivity|exact F].
+  Qed.
+
+  Theorem nearest_over_clamp_safe tcoord (c : list Z) : length c = length sizes ->
+    forallb (fun x => s_finite flocq_ops tcoord x && sty_range I64 (f_lrint flocq_ops tcoord x)) c = true ->
+    exists i v, nearest_at flocq_ops tcoord t clamped_storage c = Some ([i], v) /\ in_storage i.
+  Proof.
+    intros Hc Hd. unfold nearest_at. rewrite Hd. apply clamped_cell. now rewrite map_length.
+  Qed.
+End Beneath.
